@@ -73,6 +73,7 @@ func (c *basicCatcher) String() string {
 // Add takes an error object and, if it's non-nil, adds it to the
 // internal collection of errors.
 func (c *basicCatcher) Add(err error) {
+	vpoint("catcher.add")
 	if err == nil {
 		return
 	}
